@@ -304,7 +304,7 @@ func genFlows() *rapid.Generator[[]flowSpec] {
 				f.Methods = rapid.SliceOfNDistinct(rapid.SampledFrom(methods), 1, 2, rapid.ID[string]).Draw(t, "methods")
 			}
 			if rapid.IntRange(0, 3).Draw(t, "hasHeader") == 0 {
-				f.Headers = []kv{{K: "x-k", V: rapid.SampledFrom([]string{"1", "2"}).Draw(t, "hv")}}
+				f.Headers = []kv{{K: "x-k", V: rapid.SampledFrom(headerValues).Draw(t, "hv")}}
 			}
 			if rapid.IntRange(0, 3).Draw(t, "hasQuery") == 0 {
 				f.Query = []kv{{K: "q", V: rapid.SampledFrom([]string{"1", "2"}).Draw(t, "qv")}}
@@ -359,7 +359,7 @@ func genTxn(flows []flowSpec) *rapid.Generator[txnSpec] {
 		tx.Method = rapid.SampledFrom(append(methods, "GET", "GET", "HEAD")).Draw(t, "method")
 		tx.Response = rapid.IntRange(0, 3).Draw(t, "resp") == 0
 		if rapid.IntRange(0, 1).Draw(t, "hk") == 0 {
-			tx.Headers = map[string]string{"x-k": rapid.SampledFrom([]string{"1", "2", "3"}).Draw(t, "hkv")}
+			tx.Headers = map[string]string{"x-k": rapid.SampledFrom(append([]string{"3"}, headerValues...)).Draw(t, "hkv")}
 		}
 		if !tx.Response && rapid.IntRange(0, 1).Draw(t, "q") == 0 {
 			tx.Query = "q=" + rapid.SampledFrom([]string{"1", "2", "3"}).Draw(t, "qv")
@@ -382,6 +382,11 @@ func genTxn(flows []flowSpec) *rapid.Generator[txnSpec] {
 		return tx
 	})
 }
+
+// headerValues: required and sent header values. Values are compared without regard to letter case; the pool holds
+// spellings that are equal that way although their UTF-8 lengths differ (capital sharp s, Kelvin sign, long s) next
+// to ones that are not equal ("ss" is not "ß")
+var headerValues = []string{"1", "2", "1", "2", "abc", "ABC", "aBc", "stra\u00dfe", "STRA\u1e9eE", "strasse", "300k", "300\u212a", "\u00e9", "\u00c9", "\u017ft", "ST"}
 
 type testCase struct {
 	Flows  []flowSpec `json:"flows"`
